@@ -929,7 +929,13 @@ func loadKnown(prop string) *knownSet {
 	if err := json.Unmarshal(b, &all); err != nil {
 		infra("known_findings.json: %v", err)
 	}
+	// VERIF_IGNORE_KNOWN=all|<sig>[,<sig>...]: maintenance only (regenerating the replay file of a
+	// recorded finding after the harness changed): the named findings are reported like new ones.
+	ign := os.Getenv("VERIF_IGNORE_KNOWN")
 	for _, e := range all {
+		if ign == "all" || (ign != "" && strings.Contains(","+ign+",", ","+e.Sig+",")) {
+			continue
+		}
 		if e.Property == prop && e.Status == "open" && !suppressKnown[e.Clause+"|"+e.Sig] {
 			ks.entries = append(ks.entries, e)
 		}
